@@ -240,11 +240,43 @@ fn main() {
             let j = rng.below(i as u64 + 1) as usize;
             fs.swap(i, j);
         }
+        // a third of the sets has id and type criteria only (the sets for which a decision per address looks tempting)
+        if rng.chance(1, 3) {
+            for f in fs.iter_mut() {
+                f.pay = no_pay();
+                f.lmin = -1;
+                f.lmax = -1;
+                f.lcs = no_lcs();
+                if rng.chance(1, 2) {
+                    f.typ = if rng.chance(1, 2) { TypeCrit { k: "mstp".into(), v: *rng.pick(&[0u32, 3]), mask: 0 } } else { TypeCrit { k: "vmm".into(), v: *rng.pick(&[0x41u32, 0x40, 0x26, 0x16, 0x06, 0x01]), mask: 0 } };
+                }
+            }
+        }
         let nm = rng.range(4, 12) as usize;
-        let amsgs: Vec<AMsg> = (0..nm).map(|_| {
-            if fs.is_empty() { gen_msg(&mut rng, &empty_filter(0), nchars) } else { let f = rng.pick(&fs).clone(); gen_msg(&mut rng, &f, nchars) }
+        let mut amsgs: Vec<AMsg> = Vec::new();
+        for _ in 0..nm {
+            let mut m = if fs.is_empty() { gen_msg(&mut rng, &empty_filter(0), nchars) } else { let f = rng.pick(&fs).clone(); gen_msg(&mut rng, &f, nchars) };
+            // half of the messages share the address (ecu, apid, ctid) with an earlier one and differ in other fields
+            if !amsgs.is_empty() && rng.chance(1, 2) {
+                let o: AMsg = rng.pick(&amsgs).clone();
+                let any = rng.below(256) as u32;
+                let vmm = if o.ext { *rng.pick(&[0x41u32, 0x40, 0x26, 0x16, 0x06, 0x01, m.vmm, any]) } else { 0 };
+                m = AMsg { ecu: o.ecu, ext: o.ext, apid: o.apid, ctid: o.ctid, vmm, ..m };
+            }
+            amsgs.push(m);
+        }
+        // streams with runs: the next message often shares the address with the previous one
+        let streams: Vec<Vec<usize>> = (0..2).map(|_| {
+            let mut st: Vec<usize> = Vec::new();
+            for _ in 0..rng.range(0, max_len) {
+                let same: Vec<usize> = match st.last() {
+                    Some(l) => (1..=nm).filter(|k| { let (a, b) = (&amsgs[*k - 1], &amsgs[*l - 1]); a.ecu == b.ecu && a.ext == b.ext && a.apid == b.apid && a.ctid == b.ctid }).collect(),
+                    None => vec![],
+                };
+                if !same.is_empty() && rng.chance(1, 2) { st.push(*rng.pick(&same)); } else { st.push(rng.range(1, nm as u64) as usize); }
+            }
+            st
         }).collect();
-        let streams: Vec<Vec<usize>> = (0..2).map(|_| (0..rng.range(0, max_len)).map(|_| rng.range(1, nm as u64) as usize).collect()).collect();
         run_case(&mut o, &fs, &amsgs, &streams, None, true, false, "random");
         o.bump("random_cases", 1);
     }
